@@ -31,7 +31,7 @@ theorem Inv.lockStep {s : State} (hI : Inv s) {a : Actor} {f : Nat} {p : Pc} (hf
     Inv (({ s with lock := upd s.lock f (some a) }).setPc a p) := by
   have hI' := hI
   obtain ⟨kindC, kindF, lockOk, frWait, freshOk, freshUniq, freshVer, freshVerT, freshNode, wFreeTaken, preOk, postOk, ownOk, rsmTaken,
-    freeTaken, pubNode, waiting, parked, listOk, scanOk, prevOk, placed, oScanOk, oNoneOk, aUnlockOk, aNextOk, aResumeOk, aFreeOk,
+    freeTaken, pubNode, waiting, parked, listOk, scanOk, prevOk, placed, freshHolder, scanL0, unlockL0, oScanOk, oNoneOk, aUnlockOk, aNextOk, aResumeOk, aFreeOk,
     noRead, cTakeOk, cRemoveOk, allocUsed, noBad⟩ := hI
   constructor
   case kindC => inv_auto
@@ -71,6 +71,9 @@ theorem Inv.lockStep {s : State} (hI : Inv s) {a : Actor} {f : Nat} {p : Pc} (hf
     · inv_simp; grind [updA, upd, Pc.pend, Pc.locks]
     · inv_simp; grind [updA]
   case placed => inv_auto
+  case freshHolder => inv_auto
+  case scanL0 => inv_auto
+  case unlockL0 => inv_auto
   case oScanOk => inv_auto
   case oNoneOk => inv_auto
   case aUnlockOk => inv_auto
@@ -109,7 +112,7 @@ theorem Inv.unlockStep {s : State} (hI : Inv s) {a : Actor} {f : Nat} {p : Pc}
   have hI' := hI
   have hla := (hI.lockOk f a).2 hl
   obtain ⟨kindC, kindF, lockOk, frWait, freshOk, freshUniq, freshVer, freshVerT, freshNode, wFreeTaken, preOk, postOk, ownOk, rsmTaken,
-    freeTaken, pubNode, waiting, parked, listOk, scanOk, prevOk, placed, oScanOk, oNoneOk, aUnlockOk, aNextOk, aResumeOk, aFreeOk,
+    freeTaken, pubNode, waiting, parked, listOk, scanOk, prevOk, placed, freshHolder, scanL0, unlockL0, oScanOk, oNoneOk, aUnlockOk, aNextOk, aResumeOk, aFreeOk,
     noRead, cTakeOk, cRemoveOk, allocUsed, noBad⟩ := hI
   constructor
   case kindC => inv_auto
@@ -149,6 +152,9 @@ theorem Inv.unlockStep {s : State} (hI : Inv s) {a : Actor} {f : Nat} {p : Pc}
     · inv_simp; grind [updA, upd, Pc.pend, Pc.locks]
     · inv_simp; grind [updA]
   case placed => inv_auto
+  case freshHolder => inv_auto
+  case scanL0 => inv_auto
+  case unlockL0 => inv_auto
   case oScanOk => inv_auto
   case oNoneOk => inv_auto
   case aUnlockOk => inv_auto
